@@ -72,9 +72,15 @@ func (i *interpreter) inSet(r value, set string) value {
 }
 
 func hasSym(v value) bool {
-	switch v.(type) {
+	switch x := v.(type) {
 	case sym, sstr, decStr:
 		return true
+	case []value:
+		for _, e := range x {
+			if hasSym(e) {
+				return true
+			}
+		}
 	}
 	return false
 }
